@@ -668,8 +668,9 @@ inline void round(Ctx& c, long idx)
     run.payloads(r);
     if (idx % 4 == 0)
         run.bigPayloadEquality(r);
-    if (idx % 4 == 1)
+    if (idx % 4 == 1 && (idx < 1024 || mix64(static_cast<uint64_t>(idx), 0xb16) % 16 == 0))
     {
+        // (every fourth of the first 1024 rounds, one in 64 afterwards: these rounds copy megabytes)
         // value semantics do not depend on how large the payload is: a sub-pool of packets with payloads of 1 KiB .. 100 000 bytes
         // (sizes around the powers of two where "large objects are shared / small ones copied" policies switch) goes through
         // every operation pair and the stale-handle checks as well
